@@ -58,12 +58,16 @@ TraceAnalyses ==
           LET it == e.items[k] IN
           /\ Judge(it.explain[1] = it.explain[2], "project_differs_from_standalone")
           /\ Judge(it.explain[2] = it.explain[3], "depends_on_rule_order")
-          /\ Judge(it.resp_explain = it.resp_pipeline, "response_differs_from_pipeline")
+          /\ Judge(it.resp_explain = it.resp_pipeline,
+                   IF it.request_time_with_code THEN "example_code_hides_request_time_decision" ELSE "response_differs_from_pipeline")
           /\ Judge(it.trace_action_equal, "trace_action_last_differs")
      /\ Judge(e.test_examples[1] = e.test_examples[2] /\ e.unit_ids[1] = e.unit_ids[2], "project_differs_from_standalone")
      /\ Judge(e.test_examples[2] = e.test_examples[3] /\ e.unit_ids[2] = e.unit_ids[3], "depends_on_rule_order")
      /\ Judge(e.impact = <<>> \/ e.impact[1] = e.impact[2], "project_differs_from_standalone")
      /\ Judge(e.impact = <<>> \/ e.impact[2] = e.impact[3], "depends_on_rule_order")
+     /\ \A k \in 1..Len(e.impact_items) :
+          Judge(e.impact_items[k].resp_impact = e.impact_items[k].resp_pipeline,
+                IF e.impact_items[k].request_time_with_code THEN "example_code_hides_request_time_decision" ELSE "response_differs_from_pipeline")
      /\ Judge(e.existing_len_after = e.existing_len_before, "project_changed_existing_router")
 TracePanic == IsEvent("panic") /\ Report("VERDICT", "panic")
 TraceNext == TraceLoop \/ TraceReset \/ TraceAnalyses \/ TracePanic
